@@ -311,7 +311,11 @@ func (e *Enc) evalArgs(c *ssa.CallCommon) []Term {
 			args = append(args, T("ADDR", SInt))
 			continue
 		}
-		args = append(args, e.val(a))
+		av := e.val(a)
+		if av.Sort == SReal {
+			e.finiteUse(nil, "passed to a call", av)
+		}
+		args = append(args, av)
 	}
 	return args
 }
@@ -1141,19 +1145,162 @@ func (e *Enc) closesOnlyField(v ssa.Value) bool {
 	return false
 }
 
-// onChanRecv: a completed receive on a closes-only channel means the channel has been closed
-// (nothing is ever sent on it: site frame; close/receive happens-before: trusted Go semantics).
-func (e *Enc) onChanRecv(x *ssa.UnOp) {
-	if e.closesOnlyField(x.X) {
-		name := "G$closedchans"
-		cl := e.lookup(e.cur, name, ArraySort(SInt, SBool))
-		e.sc.AssertNamed(Implies(e.curGuard, Select(cl, e.val(x.X))), "receive on a closes-only channel completed: it is closed")
+// localClosesOnly: v is (a load of the cell of) a channel made in this function on which nothing is
+// ever sent and which does not escape: its only uses here and in the closures capturing it are
+// receives, select receive arms and close. A completed receive then means another thread closed it.
+func (e *Enc) localClosesOnly(v ssa.Value) bool {
+	okUse := func(val ssa.Value, in ssa.Instruction) bool {
+		switch u := in.(type) {
+		case *ssa.UnOp:
+			return u.Op == token.ARROW
+		case *ssa.Select:
+			for _, st := range u.States {
+				if st.Chan == val && st.Dir != types.RecvOnly {
+					return false
+				}
+			}
+			return true
+		case ssa.CallInstruction:
+			if b, ok := u.Common().Value.(*ssa.Builtin); ok && b.Name() == "close" {
+				return true
+			}
+			return false
+		case *ssa.DebugRef:
+			return true
+		}
+		return false
+	}
+	var cellOK func(cell ssa.Value, depth int) bool
+	cellOK = func(cell ssa.Value, depth int) bool {
+		if depth > 3 || cell.Referrers() == nil {
+			return false
+		}
+		for _, r := range *cell.Referrers() {
+			switch u := r.(type) {
+			case *ssa.Store:
+				if u.Addr != cell {
+					return false
+				}
+				if _, isMake := u.Val.(*ssa.MakeChan); !isMake {
+					return false
+				}
+			case *ssa.UnOp:
+				if u.Op != token.MUL || u.Referrers() == nil {
+					return false
+				}
+				for _, rr := range *u.Referrers() {
+					if !okUse(u, rr) {
+						return false
+					}
+				}
+			case *ssa.MakeClosure:
+				fn := u.Fn.(*ssa.Function)
+				for i, b := range u.Bindings {
+					if b == cell {
+						if i >= len(fn.FreeVars) || !cellOK(fn.FreeVars[i], depth+1) {
+							return false
+						}
+					}
+				}
+			case *ssa.DebugRef:
+			default:
+				return false
+			}
+		}
+		return true
+	}
+	switch x := v.(type) {
+	case *ssa.MakeChan:
+		if x.Referrers() == nil {
+			return false
+		}
+		for _, r := range *x.Referrers() {
+			if st, ok := r.(*ssa.Store); ok && st.Val == x {
+				if !cellOK(st.Addr, 0) {
+					return false
+				}
+				continue
+			}
+			if !okUse(x, r) {
+				return false
+			}
+		}
+		return true
+	case *ssa.UnOp:
+		if x.Op != token.MUL {
+			return false
+		}
+		if a, ok := x.X.(*ssa.Alloc); ok {
+			return cellOK(a, 0)
+		}
+	}
+	return false
+}
+
+// capturedPrivateChan: fv is a captured channel variable whose cell, in the function declaring it, holds a
+// channel made there that is only received from / closed (localClosesOnly on the parent's cell).
+func capturedPrivateChan(fv *ssa.FreeVar) bool {
+	fn := fv.Parent()
+	parent := fn.Parent()
+	if parent == nil {
+		return false
+	}
+	for _, b := range parent.Blocks {
+		for _, ins := range b.Instrs {
+			if mc, ok := ins.(*ssa.MakeClosure); ok && mc.Fn == ssa.Value(fn) {
+				for i, bd := range mc.Bindings {
+					if i < len(fn.FreeVars) && fn.FreeVars[i] == fv {
+						a, isAlloc := bd.(*ssa.Alloc)
+						if !isAlloc {
+							return false
+						}
+						var e0 Enc
+						// a load of the cell in the parent
+						if a.Referrers() != nil {
+							for _, r := range *a.Referrers() {
+								if u, ok := r.(*ssa.UnOp); ok && u.Op == token.MUL {
+									return e0.localClosesOnly(u)
+								}
+							}
+						}
+						return false
+					}
+				}
+			}
+		}
+	}
+	return false
+}
+
+// recvClosed: a completed receive from ch (a closes-only channel) means ch has been closed.
+func (e *Enc) recvClosed(chv ssa.Value, guard Term) {
+	name := "G$closedchans"
+	cl := e.lookup(e.cur, name, ArraySort(SInt, SBool))
+	if e.closesOnlyField(chv) {
+		e.sc.AssertNamed(Implies(guard, Select(cl, e.val(chv))), "receive on a closes-only channel completed: it is closed")
+		e.assumed["a receive on a channel nothing is sent on completes only after the channel was closed (Go channel semantics, trusted)"] = true
+		return
+	}
+	if e.localClosesOnly(chv) {
+		// the close happened in another thread: record it in this thread's view
+		e.set(e.cur, name, Ite(guard, Store(cl, e.val(chv), TTrue), cl))
 		e.assumed["a receive on a channel nothing is sent on completes only after the channel was closed (Go channel semantics, trusted)"] = true
 	}
 }
 
+// onChanRecv: a completed receive on a closes-only channel means the channel has been closed
+// (nothing is ever sent on it: site frame; close/receive happens-before: trusted Go semantics).
+func (e *Enc) onChanRecv(x *ssa.UnOp) {
+	e.recvClosed(x.X, e.curGuard)
+}
+
 // onSelect: ghost hooks anchored at select arms: `ghost after call select:arm<k> : ...` runs when arm k was chosen.
 func (e *Enc) onSelect(x *ssa.Select, idx Term) {
+	for k, st := range x.States {
+		if st.Dir == types.RecvOnly {
+			e.recvClosed(st.Chan, And(e.curGuard, Eq(idx, IntLit(int64(k)))))
+		}
+	}
 	if e.fc == nil {
 		return
 	}
